@@ -10,12 +10,14 @@ UNIVERSES = [(0, 1, 2), ((0, 0), (0, 1), ()), ('s', (1,), 2)]
 
 def run_c14(rep, tier):
     rep.assumptions += ['universe of 3 state values plus one value that is never a state, for three choices of the values: ints {0,1,2}, tuples {(0,0),(0,1),()}, mixed {"s",(1,),2}; one atom p; label dictionaries with symbolic key presence',
-                        '/repo at fix commit 36a2c0d or later (get_substructure labels repaired)']
+                        '/repo at fix commit 36a2c0d or later (get_substructure labels repaired)', 'a state whose value is None is known finding D16 (labels(None) is the whole-structure form) and is not among the state values']
     rep.cov['trusted_base'] = TRUSTED
     rep.cov['explanation'] = ('Kripke.__init__ (and DiGraph.__init__) executed symbolically with symbolic membership of S, R, S0 and symbolic keys/values of L: '
                               'solver proves "raises RuntimeError <=> some node of S u ends(R) has no successor", no other exception, exact states/transitions/labels/S0 '
                               'of the constructed object, labels()/next() raise RuntimeError exactly on non-states, label sets are copies; clone() and '
                               'get_substructure(V) for symbolic V: raises <=> induced relation not total, else exact induced structure, no shared set, receiver unchanged')
+    from . import findings
+    findings.report_open(rep, 'C14')          # D16: a state whose value is None (outside every universe below)
     tasks = []
     fk = ['s0_%d' % i for i in range(3)] + ['lk_%d' % i for i in range(3)]
     fk2 = ['s0_%d' % i for i in range(3)]
